@@ -1,13 +1,18 @@
 import Adlt.Lc.Model
 import Adlt.Lc.Spec
+import Adlt.Lc.CleanTrace
+import Adlt.Lc.Table
 /-! # C08 — cleanly separated power cycles are detected exactly   (partial)
 
-What is proved here are the two facts the exactness rests on, for every lifecycle state and message:
-a message of the *same* boot (its calculated start `recv - timestamp` equals the lifecycle's start) is always absorbed
-without moving the start, and a message whose calculated start lies after the lifecycle's end always opens a new
-lifecycle. The whole-trace statement (one lifecycle per boot per ECU with exact start / end / counts, inside the region
-described in DESIGN.md) is the executable `Lcm.c08Exact`, evaluated on the implementation for every generated clean trace;
-outside that region the statement is false of the code (known finding, see `C08_excluded_witness`). -/
+Local facts, for every lifecycle state and message: a message of the *same* boot (its calculated start `recv - timestamp`
+equals the lifecycle's start) is always absorbed without moving the start, and a message whose calculated start lies after
+the lifecycle's end always opens a new lifecycle. Whole trace (`C08_clean_trace_exact`, `C08_clean_trace_table`): for every
+clean trace *inside the claimed region* - every next boot starts after the end of the previous one, or before it by less
+than the "slightly overlapping" window while the previous boot was longer than 10 s - of any number of ECUs interleaved in
+any way, the detector reports exactly one lifecycle per boot per ECU with start = boot time + delay, end = start + largest
+timestamp and the boot's message count, never merges, and delivers every message labelled with the lifecycle of its boot.
+The same statement (`Lcm.c08Exact`) is evaluated on the implementation for every generated clean trace; outside the region
+it is false of the code (known finding, see `C08_excluded_witness`). -/
 namespace Props
 open Lcm
 
@@ -77,5 +82,59 @@ theorem C08_excluded_witness :
     ((observe (run [ { index := 0, recv := 1700000022000000, ecu := 0, tsDms := 0, hasTs := true, ctrlReq := false },
                      { index := 1, recv := 1700000035678505, ecu := 0, tsDms := 150530, hasTs := true, ctrlReq := false } ])).tbl.map (·.n)) = [2] := by
   decide
+
+/-! ## the whole trace -/
+
+/-- **clean traces inside the claimed region are detected exactly.** `mbs` = the messages with the number of the boot they
+    belong to; `FitsAll` = every message has a timestamp, is no control request, and belongs to the newest boot of its ECU
+    (same calculated start) or to the next one, whose calculated start lies in the region. Then, at the end of the stream:
+    (a) for every ECU the live lifecycles are its boots, one each: id, start = boot time + delay, largest timestamp, count;
+    (b) every live lifecycle ends at start + largest timestamp;
+    (c) the delivered messages are the input messages in order, each labelled with the id of the lifecycle of its boot;
+    (d) the boots of an ECU are distinct (one record per boot). -/
+theorem C08_clean_trace_exact (mbs : List (Msg × Nat)) (hF : FitsAll {} (fun _ => []) mbs) :
+    (∀ e, (oldList (run (mbs.map (·.1))).ecuMap e).reverse.map Lc.sig = (finalG {} (fun _ => []) mbs e).map Rec.sig) ∧
+    (∀ e, ∀ l ∈ oldList (run (mbs.map (·.1))).ecuMap e, l.endTime = l.start + l.maxTs) ∧
+    ((run (mbs.map (·.1))).outL.length = mbs.length ∧
+      ∀ p ∈ mbs.zip (run (mbs.map (·.1))).outL, p.2 = { p.1.1 with lc := p.2.lc } ∧
+        HasRec (finalG {} (fun _ => []) mbs) p.1.1.ecu p.1.2 p.2.lc) ∧
+    BootsDesc (finalG {} (fun _ => []) mbs) := by
+  obtain ⟨c1, c2, c3⟩ := clean_trace mbs hF
+  obtain ⟨l1, l2⟩ := labels8_spec mbs {} (fun _ => []) hF
+  refine ⟨c1.sig, ?_, ⟨by rw [c2]; exact l1, by rw [c2]; exact l2⟩, c3⟩
+  intro e l hl
+  exact endTime_of l (c1.zero e l hl)
+
+/-- ... and the published table lists every boot: an entry with the lifecycle id of the boot, its ECU, its message count,
+    start = boot time + delay and end = start + largest timestamp -/
+theorem C08_clean_trace_table (mbs : List (Msg × Nat)) (hF : FitsAll {} (fun _ => []) mbs) (e : Nat) (r : Rec)
+    (hr : r ∈ finalG {} (fun _ => []) mbs e) :
+    ∃ t ∈ (observe (run (mbs.map (·.1)))).tbl, t.id = r.id ∧ t.ecu = e ∧ t.n = r.n ∧ t.start = r.start ∧ t.endT = r.start + r.maxTs := by
+  obtain ⟨c1, c2, _, _⟩ := C08_clean_trace_exact mbs hF
+  have hmem : r.sig ∈ (oldList (run (mbs.map (·.1))).ecuMap e).reverse.map Lc.sig := by
+    rw [c1 e]; exact List.mem_map.mpr ⟨r, hr, rfl⟩
+  obtain ⟨l, hl, hsig⟩ := List.mem_map.mp hmem
+  have hl' : l ∈ oldList (run (mbs.map (·.1))).ecuMap e := by simpa using hl
+  simp only [Lc.sig, Rec.sig, Prod.mk.injEq] at hsig
+  obtain ⟨hi, t1, _, _⟩ := run_final (mbs.map (·.1))
+  have hem : (run (mbs.map (·.1))).ecuMap = ((mbs.map (·.1)).foldl St.step {}).ecuMap := finish_ecuMap _
+  have hlive := oldList_live _ e l hl'
+  have hecu : l.ecu = e := by
+    rw [hem] at hl'
+    exact oldList_ecu _ _ e hi.map l hl'
+  have hpub := assocGet_mem _ _ _ (t1 l hlive)
+  refine ⟨{ id := l.id, ecu := l.ecu, n := l.nrMsgs, start := l.start, endT := l.endTime, resume := l.resume.isSome }, ?_,
+    hsig.1, hecu, hsig.2.2.2, hsig.2.1, ?_⟩
+  · simp only [observe, List.mem_map]
+    exact ⟨(l.id, l), hpub, rfl⟩
+  · show l.endTime = r.start + r.maxTs
+    rw [c2 e l hl', hsig.2.1, hsig.2.2.1]
+
+/-- non-vacuity: one ECU, boot 0 with two messages (timestamps 1 s and 3 s, delay 2 s), boot 1 starting 12 s later -/
+example : FitsAll {} (fun _ => [])
+    [ ({ index := 0, recv := 1000003000000, ecu := 7, tsDms := 10000, hasTs := true, ctrlReq := false }, 0),
+      ({ index := 1, recv := 1000005000000, ecu := 7, tsDms := 30000, hasTs := true, ctrlReq := false }, 0),
+      ({ index := 2, recv := 1000017500000, ecu := 7, tsDms := 5000, hasTs := true, ctrlReq := false }, 1) ] := by
+  refine ⟨⟨rfl, rfl, by decide, trivial⟩, ⟨rfl, rfl, by decide, Or.inl ⟨rfl, by decide⟩⟩, ⟨rfl, rfl, by decide, Or.inr ⟨rfl, Or.inl (by decide)⟩⟩, trivial⟩
 
 end Props
